@@ -177,6 +177,8 @@ def reference_bytes(o):
         return ref.ext_sct_list([sct_body(s) for s in o])
     if tn == 'TlsProtocolVersion':
         return ref.u16(version_code(o))
+    if tn == 'TlsHandshakeHelloRandom':     # RFC 5246 s7.4.1.2: uint32 gmt_unix_time; opaque random_bytes[28]
+        return gmt(o.time).to_bytes(4, 'big') + bytes(bytearray(o.random))
     if tn == 'TlsCertificate':
         return ref.vec(bytes(o.certificate), 2 ** 24 - 1)
     if tn == 'TlsCertificates':
@@ -256,6 +258,7 @@ def _object_worker(args):
     import enum
     if isinstance(objs[idx], enum.Enum):
         return acc.result()
+    objects.AWARE_FOR_NAIVE = True      # layout check: aware spellings of the same instant must encode identically
     with core.watchdog(1500):
         for path, o, stats in objects.neighbourhood(objs[idx], depth, False, 6000):
             check_object(acc, cls, o, {'kind': 'object', 'cls': qn, 'seed': idx, 'path': list(path)})
